@@ -22,7 +22,7 @@ pub fn run_c14(args: &Args) -> i32 {
   net::set_policy_drop_all();
   let mut rep = Report::new(
     args,
-    "messages of 1-5 submessages built through MessageBuilder (data_msg, data_frag_msg, gap_msg, heartbeat_msg, ts_msg, dst_submessage), create_submessage and direct structs with boundary sequence numbers, inline-QoS lists (known and vendor PIDs, value lengths of every residue mod 4), payload lengths 0..300 of every residue mod 4, number sets with 0..256 bits and members at the window edges, per-submessage endianness; plus standalone SequenceNumberSet/FragmentNumberSet cases; distinct = hash of the serialized bytes; non-trivial = message with >=2 submessages or a payload/bitmap-carrying submessage",
+    "messages of 1-5 submessages built through MessageBuilder (data_msg, data_frag_msg, gap_msg, heartbeat_msg, ts_msg, dst_submessage), create_submessage and direct structs (INFO_SRC, INFO_REPLY with 0-3 unicast and an optional multicast locator list) with boundary sequence numbers, inline-QoS lists (known and vendor PIDs, value lengths of every residue mod 4), payload lengths 0..300 of every residue mod 4, number sets with 0..256 bits and members at the window edges, per-submessage endianness; plus standalone SequenceNumberSet/FragmentNumberSet cases; distinct = hash of the serialized bytes; non-trivial = message with >=2 submessages or a payload/bitmap-carrying submessage",
   );
   rep.assume("round-trip equality ignores original_bytes and compares parameter values / payload up to <=3 trailing zero bytes (RTPS padding); generated values never end in a zero byte so padding is unambiguous");
   rep.assume("a submessage that is followed by another must end on a 4-byte boundary; the final one may have any length (DATAFRAG is not padded and is always sent last)");
@@ -206,6 +206,29 @@ pub fn run_c14(args: &Args) -> i32 {
             mismatch("INFO_TS", acc);
           }
         }
+        Sub::InfoReply { unicast, multicast } => {
+          let mut e = vec![unicast.len() as i64];
+          let mut pl: Vec<u8> = vec![];
+          for (k, p, a) in unicast {
+            e.push(*k as i64);
+            e.push(*p as i64);
+            pl.extend_from_slice(a);
+          }
+          match multicast {
+            None => e.push(-1),
+            Some(m) => {
+              e.push(m.len() as i64);
+              for (k, p, a) in m {
+                e.push(*k as i64);
+                e.push(*p as i64);
+                pl.extend_from_slice(a);
+              }
+            }
+          }
+          if b.nums != e || b.payload != pl {
+            mismatch("INFO_REPLY", acc);
+          }
+        }
         Sub::InfoDst { prefix } | Sub::InfoSrc { prefix } => {
           if b.payload != prefix.to_vec() {
             mismatch("INFO_DST/SRC-prefix", acc);
@@ -230,7 +253,7 @@ pub fn run_c14(args: &Args) -> i32 {
   rep.require("messages", 10_000);
   rep.require("numberset_cases", 2000);
   rep.require("big_endian_submessages", 1000);
-  for k in ["kind_0x15", "kind_0x16", "kind_0x07", "kind_0x08", "kind_0x06", "kind_0x12", "kind_0x09", "kind_0x0e"] {
+  for k in ["kind_0x15", "kind_0x16", "kind_0x07", "kind_0x08", "kind_0x06", "kind_0x12", "kind_0x09", "kind_0x0e", "kind_0x0f"] {
     rep.require(k, 500);
   }
   rep.finish(acc)
